@@ -94,6 +94,8 @@ def gen_plan(rng, tier, i):
 
     child = random.Random("c09-child:" + repr(spec["jseed"]) + repr(len(ops)))  # operations added after the first version: own generator, earlier plans keep their draws
     if child.random() < 0.3:
+        spec["scale"] = child.choice(["TT", "GPS", "TAI", "TT"])  # a table dated in another time scale (offset to TAI not zero)
+    if child.random() < 0.3:
         # another ephemeris alive in the same process: same dates at both ends of many interpolation windows, other dates (and values) inside
         ops.insert(child.randint(0, max(0, len(ops) // 2)), {"op": "decoy", "seed": child.randrange(1 << 30), "p": child.choice([0.25, 0.4, 0.6]), "shift": child.choice([0.3, -0.3, 0.11])})
     for o_ in list(ops):
@@ -144,7 +146,7 @@ def poly_eval(spec, t_s):
 
 def build_ephem(node, spec):
     td = node.timedelta
-    epoch = world.mk_date(node, spec["epoch"])
+    epoch = world.mk_date(node, spec["epoch"], spec.get("scale", "UTC"))
     pts = []
     if spec["table"] == "kepler":
         orb = node.Orbit(spec["kep"], epoch, "keplerian", "EME2000", node.mod("beyond.propagators.kepler").Kepler())
@@ -329,7 +331,7 @@ class World:
         # ---- polynomial reproduction (pure function of the inputs: only while the table is as generated)
         if spec["table"] == "poly" and self.pure and method == spec["method"] and order == spec["order"] and (method == "lagrange" and spec["degree"] < order or method == "linear" and spec["degree"] <= 1):
             with n:
-                t_s = (date - world.mk_date(n, spec["epoch"])).total_seconds()
+                t_s = (date - world.mk_date(n, spec["epoch"], spec.get("scale", "UTC"))).total_seconds()
             want = poly_eval(spec, t_s)
             sc = np.array([7e6] * 3 + [7e3] * 3)
             perr = float(np.max(np.abs(got - want) / sc))
@@ -344,7 +346,7 @@ class World:
                 ctx.probe("polynomial_reproduced")
         if spec["table"] == "kepler" and self.pure and method == "lagrange" and order >= 6 and eform == "cartesian":
             with n:
-                orb = n.Orbit(spec["kep"], world.mk_date(n, spec["epoch"]), "keplerian", "EME2000", n.mod("beyond.propagators.kepler").Kepler())
+                orb = n.Orbit(spec["kep"], world.mk_date(n, spec["epoch"], spec.get("scale", "UTC")), "keplerian", "EME2000", n.mod("beyond.propagators.kepler").Kepler())
                 truth = np.array(orb.propagate(date).copy(frame=eframe, form="cartesian"), dtype=float)
             ctx.observe(f"orbit_err_m_order{order}_step{int(spec['step_s'])}", float(np.linalg.norm(got[:3] - truth[:3])))
         self.since = set()
